@@ -26,6 +26,7 @@ SPECIAL_ALPHA = ["é", "ф", "α", "ñ"]          # é ф α ñ (1:1 case maps)
 DIGITS = "0123456789"
 OTHERS = "!@#$ .-_"
 KEYB = ["1qaz", "qwer", "asdf", "1q2w", "zaq1", "2wsx"]
+KEYB_BY_LEN = {4: KEYB, 5: ["1qaz2", "qwer4", "asdf5", "zaq12", "1q2w3"], 6: ["1qaz2w", "1q2w3e", "zaq12w"]}
 YEARS = ["2019", "1999", "2000", "1987", "2012"]
 CONTEXT = ["<3", ";p", "#1", "*0*", ":)"]
 
@@ -65,7 +66,8 @@ def _values_for(t, kind, n, count, used, hostile):
             if hostile and t.chance(1, 8):
                 v = v[:-1] + "\U0001F600"
         elif kind == "K":
-            v = KEYB[t.draw(len(KEYB))]
+            pool = KEYB_BY_LEN.get(n) or [(k * 4)[:n] for k in KEYB]
+            v = pool[t.draw(len(pool))]
         elif kind == "Y":
             v = YEARS[t.draw(len(YEARS))]
         elif kind == "X":
@@ -154,13 +156,13 @@ TRIVIAL_OMEN = {"ngram": 2, "alphabet": ["a", "b"], "ip": [[0, "a"], [1, "b"]],
 
 
 def gen_syn(t, allow_m=True, max_pts=600, hostile=False, force_m=False, omen=None,
-            pools=None, max_structs=4, max_vars=4):
+            pools=None, max_structs=4, max_vars=4, menu=None):
     """Synthetic ruleset spec."""
     pool = t.choice(pools or POOL_NAMES)
     nvars = t.between(1, 6)
     names = []
     for _ in range(nvars):
-        v = VAR_MENU[t.draw(len(VAR_MENU))]
+        v = (menu or VAR_MENU)[t.draw(len(menu or VAR_MENU))]
         if v not in names:
             names.append(v)
     variables = {}
